@@ -21,7 +21,7 @@ func init() {
 			return []Canary{
 				{Name: "skip-constraints-when-no-groups", File: "cert/sign.go", Old: "err := checkCAConstraints(signer, t.NotBefore, t.NotAfter, t.Groups, t.Networks, t.UnsafeNetworks)\n\t\tif err != nil {\n\t\t\treturn nil, err\n\t\t}", New: "if len(t.Groups) > 0 {\n\t\t\terr := checkCAConstraints(signer, t.NotBefore, t.NotAfter, t.Groups, t.Networks, t.UnsafeNetworks)\n\t\t\tif err != nil {\n\t\t\t\treturn nil, err\n\t\t\t}\n\t\t}", Rule: "C04.signwith"},
 				{Name: "networks-passed-twice", File: "cert/sign.go", Old: "t.Groups, t.Networks, t.UnsafeNetworks)", New: "t.Groups, t.Networks, t.Networks)", Rule: "C04.args"},
-				{Name: "normalize-removed", File: "cert/sign.go", Old: "\tif curve == Curve_P256 {\n\t\tsig, err = p256.Normalize(sig)\n\t\tif err != nil {\n\t\t\treturn nil, err\n\t\t}\n\t}\n", New: "", Rule: "C04.low-s"},
+				{Name: "normalize-removed", File: "cert/sign.go", Old: "\t\tsig, err = p256.Normalize(sig)\n", New: "\t\t_, err = p256.Normalize(sig)\n", Rule: "C04.low-s"},
 				{Name: "ca-may-sign-ca", File: "cert/sign.go", Old: "\t\tif t.IsCA {\n\t\t\treturn nil, fmt.Errorf(\"can not sign a CA certificate with another\")\n\t\t}\n", New: "", Rule: "C04.signwith"},
 				{Name: "v2-notbefore-notafter-swapped", File: "cert/cert_v2.go", Old: "\t\tnotBefore:      t.NotBefore,\n\t\tnotAfter:       t.NotAfter,\n\t\tissuer:         t.issuer,", New: "\t\tnotBefore:      t.NotAfter,\n\t\tnotAfter:       t.NotBefore,\n\t\tissuer:         t.issuer,", Rule: "C04.args"},
 			}
